@@ -53,3 +53,19 @@ pub trait BitAnd {
     fn and(self) -> (r: Self::Value)
         ensures /*@L:trait.and.view*/ r.bview() == self.and_view() /*@E*/;
 }
+
+// ---- repeatability of the members that declare it (src: `unsafe impl RepeatableLendGet for ...`): ghost-only impls
+impl<'a, 'e, 'd, T: Component> RepeatableLendGet for &'a Storage<'e, T, &'d MaskedStorage<T>> {
+    proof fn lemma_repeat(ov: &Self::Value, id: Index, r: &Self::Type, nv: &Self::Value) {}
+}
+impl<'a> RepeatableLendGet for AntiStorage<'a> {
+    proof fn lemma_repeat(ov: &Self::Value, id: Index, r: &Self::Type, nv: &Self::Value) {}
+}
+impl<'a> RepeatableLendGet for &'a EntitiesRes {
+    proof fn lemma_repeat(ov: &Self::Value, id: Index, r: &Self::Type, nv: &Self::Value) {}
+}
+impl<T: RepeatableLendGet> RepeatableLendGet for MaybeJoin<T> {
+    proof fn lemma_repeat(ov: &Self::Value, id: Index, r: &Self::Type, nv: &Self::Value) {
+        if ov.0.bview().contains(id) { T::lemma_repeat(&ov.1, id, &r->Some_0, &nv.1); }
+    }
+}
